@@ -18,6 +18,29 @@ pub struct C10 {
     /// on_packet_sent observation waiting for the packet_sent event of the same packet
     pending: HashMap<EpId, CcObs>,
     mtu: HashMap<u64, u16>,
+    /// persistent congestion oracle, per (endpoint, connection)
+    pc: HashMap<(EpId, u64), PcState>,
+    /// (endpoint, remote port) -> time of the latest `persistent = true` loss call
+    pc_declared: HashMap<(EpId, u16), u64>,
+    cubic: Vec<bool>,
+}
+
+/// What is needed to tell, from packet-level events alone, that a loss-detection pass
+/// established persistent congestion (RFC 9002 7.6.2)
+#[derive(Default)]
+struct PcState {
+    remote_port: u16,
+    paths: u32,
+    /// 1-RTT packets handed to the TX tap: pn -> (send time, ack-eliciting)
+    sent: std::collections::BTreeMap<u64, (u64, bool)>,
+    /// packets declared lost at the current instant: (pn, is an MTU probe)
+    batch: Vec<(u64, bool)>,
+    batch_t: u64,
+    /// estimates before the current batch
+    before: Option<Metrics>,
+    /// time of the first RTT sample
+    first_sample_t: Option<u64>,
+    initial_rtt: u64,
 }
 
 impl C10 {
@@ -26,6 +49,9 @@ impl C10 {
             last_reduction: HashMap::new(),
             pending: HashMap::new(),
             mtu: HashMap::new(),
+            pc: HashMap::new(),
+            pc_declared: HashMap::new(),
+            cubic: std::iter::once(!_p.server.bbr).chain(_p.clients.iter().map(|c| !c.cfg.bbr)).collect(),
         }
     }
 
@@ -93,6 +119,7 @@ impl Monitor for C10 {
             CcCall::Lost { persistent, .. } => {
                 cx.feature("cc_loss");
                 if *persistent {
+                    self.pc_declared.insert((o.ep, o.peer_port), cx.now);
                     cx.feature("persistent_congestion");
                     cx.summary.count("c10.persistent_congestion_events", 1);
                 }
@@ -172,11 +199,114 @@ impl Monitor for C10 {
         }
     }
 
-    fn on_evt(&mut self, cx: &mut Ctx, ep: EpId, _conn: u64, _t: u64, e: &Evt) {
+    fn on_tx(&mut self, _cx: &mut Ctx, p: &Pkt) {
+        if p.space == Space::App {
+            let st = self.pc.entry((p.ep, p.conn)).or_default();
+            st.sent.insert(p.pn, (p.t, p.ack_eliciting()));
+            if st.sent.len() > 20_000 {
+                let cut = *st.sent.keys().nth(10_000).unwrap();
+                st.sent = st.sent.split_off(&cut);
+            }
+        }
+    }
+
+    fn on_evt(&mut self, cx: &mut Ctx, ep: EpId, conn: u64, t: u64, e: &Evt) {
         if let Evt::PacketSent { mode, probe, .. } = e {
             if let Some(o) = self.pending.remove(&ep) {
                 Self::judge(cx, &o, Some(mode), *probe);
             }
+        }
+        if conn == u64::MAX {
+            return;
+        }
+        // ---- persistent congestion (CUBIC): a loss-detection pass that declares lost a run of
+        // consecutively numbered 1-RTT packets on the connection's only path, whose first and
+        // last packet are ack-eliciting, sent after the first RTT sample and further apart than
+        // the persistent congestion duration, has established persistent congestion under
+        // RFC 9002 7.6.2 (and under the stricter per-space / contiguous reading the
+        // implementation documents): the controller must be told (its window collapses).
+        let st = self.pc.entry((ep, conn)).or_default();
+        match e {
+            Evt::Started { remote_port, .. } => {
+                st.remote_port = *remote_port;
+                st.paths = 1;
+            }
+            Evt::PathCreated { .. } => st.paths += 1,
+            Evt::PacketLost { space: Space::App, pn, mtu_probe, .. } => {
+                if st.batch_t != t {
+                    st.batch.clear();
+                    st.batch_t = t;
+                }
+                st.batch.push((*pn, *mtu_probe));
+            }
+            Evt::Metrics(m) => {
+                if st.first_sample_t.is_none() {
+                    if st.initial_rtt == 0 {
+                        st.initial_rtt = m.smoothed_rtt;
+                    }
+                    if m.latest_rtt != st.initial_rtt || m.min_rtt != st.initial_rtt {
+                        st.first_sample_t = Some(t);
+                    }
+                }
+                if !st.batch.is_empty() && st.batch_t == t && st.paths == 1 && self.cubic.get(ep).copied().unwrap_or(false) {
+                    let batch = std::mem::take(&mut st.batch);
+                    let dur = |m: &Metrics| 3 * (m.smoothed_rtt + (4 * m.rtt_variance).max(1_000) + m.max_ack_delay);
+                    let need = dur(m).max(st.before.as_ref().map(dur).unwrap_or(0)) + 2_000;
+                    // runs of consecutive packet numbers
+                    let mut best: Option<(u64, u64, u64)> = None;
+                    let mut i = 0;
+                    while i < batch.len() {
+                        let mut j = i;
+                        while j + 1 < batch.len() && batch[j + 1].0 == batch[j].0 + 1 && !batch[j + 1].1 {
+                            j += 1;
+                        }
+                        if !batch[i].1 {
+                            // trim to ack-eliciting ends that were sent after the first sample
+                            let ae = |pn: u64| st.sent.get(&pn).map(|x| x.1).unwrap_or(false);
+                            let ts = |pn: u64| st.sent.get(&pn).map(|x| x.0);
+                            let (mut a, mut b) = (i, j);
+                            while a <= b && !(ae(batch[a].0) && ts(batch[a].0).zip(st.first_sample_t).map(|(x, f)| x > f).unwrap_or(false)) {
+                                a += 1;
+                            }
+                            while b > a && !ae(batch[b].0) {
+                                b -= 1;
+                            }
+                            if a < b {
+                                if let (Some(t0), Some(t1)) = (ts(batch[a].0), ts(batch[b].0)) {
+                                    let span = t1.saturating_sub(t0);
+                                    if best.map(|x| span > x.2).unwrap_or(true) {
+                                        best = Some((batch[a].0, batch[b].0, span));
+                                    }
+                                }
+                            }
+                        }
+                        i = j + 1;
+                    }
+                    if let Some((a, b, span)) = best {
+                        cx.summary.max("c10.max_lost_run_span_over_pc_duration_permille", (span * 1000 / need.max(1)) as i64);
+                        if span > need {
+                            cx.summary.count("c10.persistent_congestion_expected", 1);
+                            cx.feature("persistent_congestion_expected");
+                            let declared = self.pc_declared.get(&(ep, st.remote_port)).copied() == Some(t);
+                            if !declared {
+                                cx.violate(
+                                    "C10",
+                                    "persistent-congestion-not-declared",
+                                    format!(
+                                        "ep{ep} c{conn}: packets {a}..={b} (consecutive numbers, ack-eliciting ends, sent {span}us apart, after the first RTT sample) were declared lost in one pass; the persistent congestion duration is {need}us, yet the controller was not told and keeps a window of {} bytes",
+                                        m.cwnd
+                                    ),
+                                    json!({"ep": ep, "conn": conn, "first": a, "last": b, "span_us": span, "pc_duration_us": need, "metrics": format!("{m:?}")}),
+                                );
+                            }
+                        }
+                    }
+                }
+                if st.batch_t != t {
+                    st.before = Some(m.clone());
+                }
+            }
+            _ => {}
         }
     }
 
